@@ -10,6 +10,10 @@ Decided clauses:
   R8.2 needs_rehash: return values are exactly -1 / 0 / 1; 0 or 1 only after every decode step
        succeeded; 0 only with an equality fact for every compared parameter; 1 only with a
        difference fact.
+  R8.2-refuse before decoding, the Argon2 needs_rehash core answers -1 only for a requested opslimit / memlimit
+       above the documented maximum, an over-long string or a failed allocation (intervals from branch facts).
+  R8.5 the Argon2 block-fill backends have the same scalar control skeleton (reference lane / index arithmetic,
+       segment iteration): sibling agreement, E7.
   R8.4 the SIMD Argon2 address generators hand a freshly zero-filled block to the in-place compression
        function at every use (its last writer on the path is the zero fill).
   R8.2-valid needs_rehash answers 0 / 1 for an Argon2 string only if the decoded parameters passed
@@ -246,6 +250,11 @@ def run(ctx, chk):
                     lastw[r] = e
     chk.floor("R8.4", "hand-overs of zero scratch blocks in the SIMD address generators", n84, 4)
 
+    # ---- R8.5 the block-fill backends agree on everything but the compression itself (E7, shared with C10 R10.5) ---------
+    cm.sibling_skeleton_rule(prog, chk, "R8.5", ["argon2_fill_segment_ref", "argon2_fill_segment_ssse3", "argon2_fill_segment_avx2",
+                                                  "argon2_fill_segment_avx512f"], {0: "INST", 1: "POS"},
+                             ("index_alpha", "generate_addresses"), floor_shapes=20)
+
     # ---- R8.2 --------------------------------------------------------------------------------------
     spec = [
         # (function, decode steps [(callee, success)], number of compared parameters, requested-value roots)
@@ -332,6 +341,30 @@ def run(ctx, chk):
                detail="" if ok else "argon2_decode_string succeeds at %s without validating, and the caller does not validate either" % bad_exit[0],
                path=None if ok else bad_exit[1], key="R8.2-valid _needs_rehash")
     chk.floor("R8.2-valid", "0/1 exits of the Argon2 needs_rehash core", nn, 2)
+    # R8.2-refuse: "-1 when the string is malformed" - before the string has even been decoded, the Argon2 core may refuse only
+    # what no valid string can match: a requested opslimit / memlimit above the documented maximum, or an over-long string.
+    # (Testing memlimit > UINT32_MAX before the division by 1024 refuses 4 GiB .. 4 TiB, which are valid requests.)
+    fn = prog.need("_needs_rehash", rule="R8.2-refuse")
+    OPS, MEM = ("arg", 1), ("arg", 2)
+    kops, kmem = prog.K(A2 + "id_OPSLIMIT_MAX"), prog.K(A2 + "id_MEMLIMIT_MAX")
+    nr = 0
+    for p in cm.paths(prog, fn):
+        if p.kind != "ret" or p.ret is None or p.ret[0] != "c" or T.to_signed(p.ret[1], p.ret[2]) != -1:
+            continue
+        if list(p.calls("argon2_decode_string")):
+            continue
+        nr += 1
+        io = p.facts.interval(OPS) or (0, M64)
+        im = p.facts.interval(MEM) or (0, M64)
+        sl = [e for e in p.calls("strlen")]
+        long_str = bool(sl) and (p.facts.interval(sl[0].res) or (0, M64))[0] >= prog.K("crypto_pwhash_STRBYTES")
+        alloc_failed = any(p.facts.zeroness(e.res) == "Z" for e in p.calls("malloc", "calloc"))
+        ok = io[0] > kops or im[0] > kmem or long_str or alloc_failed
+        chk.ob("R8.2-refuse", fn, "refusal before decoding only for opslimit / memlimit above the documented maximum, an over-long string "
+               "or a failed allocation", ok, loc=fn.loc(p.end_iid),
+               detail="" if ok else "on this refusing path opslimit may be as low as %d and memlimit as low as %d (limits %d / %d): valid "
+               "requests are answered -1" % (io[0], im[0], kops, kmem), path=None if ok else p, key="R8.2-refuse _needs_rehash")
+    chk.floor("R8.2-refuse", "refusing paths of the Argon2 needs_rehash core before decoding", nr, 3)
     # wrappers return the core's value (or -1)
     for name in (A2 + "i_str_needs_rehash", A2 + "id_str_needs_rehash", "crypto_pwhash_str_needs_rehash"):
         fn = prog.need(name, rule="R8.2")
